@@ -64,6 +64,43 @@ static Geo pick_geo(vh::Rng & r)
   return g;
 }
 
+// lengths at the ends of the floating range.  tiny: 0, the smallest denormal, around the smallest normal, log-uniform
+// from the denormals up to 1e-3.  huge: log-uniform from 1e3 up to lim (and lim itself), lim being the largest magnitude
+// for which the unchanged library stays finite in the operation at hand (max/32 for the boxes, max/2 for interval ends,
+// max/4096 for the coordinates of up to 1000 points that are summed).
+template<class S> static LD tiny_len(vh::Rng & r)
+{
+  const bool dbl = sizeof(S) == 8;
+  int m = (int)r.range(0, 9);
+  if (m == 0) {return 0;}
+  if (m == 1) {return (LD)std::numeric_limits<S>::denorm_min();}
+  if (m == 2) {return (LD)(S)((LD)std::numeric_limits<S>::min() * (LD)r.logu(0.25, 4));}      // around the smallest normal
+  return (LD)(S)(dbl ? r.logu(1e-300, 1e-3) : r.logu(1e-44, 1e-3));
+}
+template<class S> static LD huge_len(vh::Rng & r, LD lim)
+{
+  int m = (int)r.range(0, 9);
+  if (m == 0) {return (LD)(S)lim;}
+  if (m == 1) {return (LD)(S)(lim * (LD)r.uni(0.5, 1));}
+  return (LD)(S)std::min(lim, (LD)r.logu(1e3, (double)lim));
+}
+template<class S> static LD box_lim() {return (LD)std::numeric_limits<S>::max() / 32;}
+// regime 0: ordinary, 1: tiny, 2: huge
+template<class S> static LD ext_len(vh::Rng & r, int regime, LD lim)
+{
+  return regime == 1 ? tiny_len<S>(r) : huge_len<S>(r, lim);
+}
+
+template<class S, int D>
+static void gen_box_extreme(vh::Rng & r, int regime, Eigen::Matrix<S, D, 1> & c, Eigen::Matrix<S, D, 1> & h)
+{
+  int cm = (int)r.range(0, 2);       // centre: origin, same extreme scale, ordinary
+  for (int j = 0; j < D; ++j) {
+    h[j] = (S)ext_len<S>(r, regime, box_lim<S>());
+    c[j] = cm == 0 ? (S)0 : cm == 1 ? (S)((LD)r.sign() * ext_len<S>(r, regime, box_lim<S>())) : (S)r.uni(-1, 1);
+  }
+}
+
 template<class S, int D>
 static void gen_box_generic(vh::Rng & r, const Geo & g, Eigen::Matrix<S, D, 1> & c, Eigen::Matrix<S, D, 1> & h)
 {
@@ -77,9 +114,12 @@ template<class S, int D>
 static void gen_box_dyadic(vh::Rng & r, int k, Eigen::Matrix<S, D, 1> & c, Eigen::Matrix<S, D, 1> & h)
 {
   bool allzero = r.coin(0.05);
+  bool origin = r.coin(0.08), cube = r.coin(0.08), integers = r.coin(0.08);
+  if (integers) {k = 0;}
+  S h0 = dyadic_pos<S>(r, k, 512);
   for (int j = 0; j < D; ++j) {
-    c[j] = dyadic<S>(r, k, 1024);
-    h[j] = (allzero || r.coin(0.12)) ? (S)0 : dyadic_pos<S>(r, k, 512);
+    c[j] = origin ? (r.coin(0.2) ? (S)-0.0 : (S)0) : dyadic<S>(r, k, 1024);
+    h[j] = (allzero || r.coin(0.12)) ? (S)0 : cube ? h0 : dyadic_pos<S>(r, k, 512);
   }
 }
 
@@ -191,11 +231,21 @@ static void case_aabb_interval(vh::Ctx & c, vh::Rng & r)
   const char * cat = "aabb_from_interval";
   c.cat(cat);
   V lo, up;
-  bool dy = r.coin(0.4);
+  int em = (int)r.range(0, 19);
+  bool dy = em < 8;
+  int regime = em >= 18 ? (em == 18 ? 1 : 2) : 0;
   if (dy) {
     int k = (int)r.range(0, 6);
     for (int j = 0; j < D; ++j) {
       S a = dyadic<S>(r, k, 1024), b = r.coin(0.15) ? a : dyadic<S>(r, k, 1024);
+      lo[j] = std::min(a, b); up[j] = std::max(a, b);
+    }
+  } else if (regime) {
+    // ends down to the denormals / up to max/2, beyond which (upper + lower) overflows in the unchanged library
+    c.cat(regime == 1 ? "aabb_from_interval_tiny" : "aabb_from_interval_huge");
+    const LD lim = (LD)std::numeric_limits<S>::max() / 2;
+    for (int j = 0; j < D; ++j) {
+      S a = (S)((LD)r.sign() * ext_len<S>(r, regime, lim)), b = r.coin(0.1) ? a : (S)((LD)r.sign() * ext_len<S>(r, regime, lim));
       lo[j] = std::min(a, b); up[j] = std::max(a, b);
     }
   } else {
@@ -221,12 +271,15 @@ static void case_aabb_interval(vh::Ctx & c, vh::Rng & r)
     LD m = std::max(fabsl((LD)lo[j]), fabsl((LD)up[j]));
     LD e = std::max(fabsl((LD)back.lower()[j] - (LD)lo[j]), fabsl((LD)back.upper()[j] - (LD)up[j]));
     if (e > worst_exact) {worst_exact = e;}
-    LD ratio = m > 0 ? e / (8 * epsL<S>() * m) : (e == 0 ? 0 : INFINITY);
-    if (ratio > worst) {worst = ratio; wj = j;}
+    // halving a denormal loses its last bit: (u+l)/2 and (u-l)/2 are each off by up to half a denorm_min
+    LD tol = 8 * epsL<S>() * m + (regime == 1 ? 4 * (LD)std::numeric_limits<S>::denorm_min() : 0);
+    LD ratio = tol > 0 ? e / tol : (e == 0 ? 0 : INFINITY);
+    if (!(ratio <= worst)) {worst = ratio; wj = j;}
   }
   auto params = [&]() {
       return Params{{"scalar", (double)SN<S>::id}, {"dim", (double)D}, {"dyadic", dy ? 1.0 : 0.0},
-        {"coordinate", (double)wj}, {"width", (double)(up[wj] - lo[wj])}};
+        {"coordinate", (double)wj}, {"width", (double)((LD)up[wj] - (LD)lo[wj])},
+        {"magnitude_regime", (double)regime}};
     };
   auto w2 = [&]() {
       return J().raw("case", wit()).raw("back_lower", vh::jvec(back.lower())).raw("back_upper", vh::jvec(back.upper()))
@@ -460,41 +513,36 @@ static void case_obb_inside(vh::Ctx & c, vh::Rng & r, bool exact_cat)
 // an axis permutation as rotation) every operand is representable, so the verdict is required
 // exactly; otherwise the band (which includes the absolute error of underflowing products) decides.
 // ------------------------------------------------------------------------------------------
-template<class S> static LD tiny_len(vh::Rng & r)
-{
-  const bool dbl = sizeof(S) == 8;
-  int m = (int)r.range(0, 9);
-  if (m == 0) {return 0;}
-  if (m == 1) {return (LD)std::numeric_limits<S>::denorm_min();}
-  if (m == 2) {return (LD)std::numeric_limits<S>::min() * (LD)r.logu(0.25, 4);}      // around the smallest normal
-  return (LD)(S)(dbl ? r.logu(1e-300, 1e-3) : r.logu(1e-44, 1e-3));
-}
-
 template<class S, int D>
-static void case_tiny_box(vh::Ctx & c, vh::Rng & r, bool oriented)
+static void case_tiny_box(vh::Ctx & c, vh::Rng & r, bool oriented, int regime = 1)
 {
   using V = Eigen::Matrix<S, D, 1>;
-  const char * cat = oriented ? "obb_inside_tiny_lengths" : "aabb_inside_tiny_lengths";
+  const bool tiny = regime == 1;
+  const LD lim = box_lim<S>();
+  const char * cat = tiny ? (oriented ? "obb_inside_tiny_lengths" : "aabb_inside_tiny_lengths") :
+    (oriented ? "obb_inside_huge_lengths" : "aabb_inside_huge_lengths");
   c.cat(cat);
-  c.cat("tiny_length_boxes");
+  c.cat(tiny ? "tiny_length_boxes" : "huge_length_boxes");
   V ce, h, p;
   Rot<S, D> rot = GenRot<S, D>::go(r, !oriented || r.coin(0.6));
   if (!oriented) {rot.R.setIdentity(); rot.perm = true; rot.mode = 0;}
   int cm = (int)r.range(0, 9);      // centre: 0..4 origin, 5..7 tiny, 8..9 ordinary
   bool same_scale = r.coin(0.5);    // all axes share one tiny scale (keeps the other axes from deciding)
-  LD common = tiny_len<S>(r);
+  LD common = ext_len<S>(r, regime, lim);
   LD loc[D];
   for (int j = 0; j < D; ++j) {
-    LD hj = same_scale && r.coin(0.7) ? common : tiny_len<S>(r);
+    LD hj = same_scale && r.coin(0.7) ? common : ext_len<S>(r, regime, lim);
     h[j] = (S)hj;
-    ce[j] = cm <= 4 ? (S)0 : cm <= 7 ? (S)(r.sign() * (double)tiny_len<S>(r)) : (S)r.uni(-1, 1);
+    ce[j] = cm <= 4 ? (S)0 : cm <= 7 ? (S)((LD)r.sign() * ext_len<S>(r, regime, lim)) : (S)r.uni(-1, 1);
     // local coordinate of the query point
     int m = (int)r.range(0, 9);
     LD sg = r.sign();
     LD off;
     int om = (int)r.range(0, 3);
-    if (om == 0) {off = (LD)std::numeric_limits<S>::denorm_min() * (LD)r.range(1, 3);} else if (om == 1) {
-      off = tiny_len<S>(r);
+    if (om == 0) {
+      off = tiny ? (LD)std::numeric_limits<S>::denorm_min() * (LD)r.range(1, 3) : (LD)h[j] * epsL<S>() * (LD)r.range(1, 3);
+    } else if (om == 1) {
+      off = ext_len<S>(r, regime, lim);
     } else if (om == 2) {off = (LD)h[j] * (LD)r.logu(1e-8, 1.0);} else {off = (LD)h[j] * epsL<S>() * (LD)r.range(1, 8);}
     if (m <= 2) {loc[j] = (LD)h[j] * (LD)r.uni(-1, 1);}                 // inside
     else if (m == 3) {loc[j] = sg * (LD)h[j];}                          // on the face
@@ -502,14 +550,14 @@ static void case_tiny_box(vh::Ctx & c, vh::Rng & r, bool oriented)
     else if (m <= 7) {loc[j] = sg * ((LD)h[j] + off);}                  // outside by a tiny offset
     else {loc[j] = sg * ((LD)h[j] - off);}                              // inside by a tiny offset (may cross over)
   }
-  if ((h.array() == 0).all()) {c.cat("tiny_zero_extent");}
-  if (cm <= 4) {c.cat("tiny_centre_origin");}
+  if (tiny && (h.array() == 0).all()) {c.cat("tiny_zero_extent");}
+  if (cm <= 4) {c.cat(tiny ? "tiny_centre_origin" : "huge_centre_origin");}
   for (int i = 0; i < D; ++i) {
     LD v = (LD)ce[i];
     for (int j = 0; j < D; ++j) {v += (LD)rot.R(i, j) * loc[j];}
     p[i] = (S)v;
   }
-  c.distinct(hvec(hvec(hvec(hvec(vh::hash_addi(0xE1, SN<S>::id * 8 + D + (oriented ? 64 : 0)), ce), h), p), rot.R), true);
+  c.distinct(hvec(hvec(hvec(hvec(vh::hash_addi(0xE1, SN<S>::id * 8 + D + (oriented ? 64 : 0) + regime * 128), ce), h), p), rot.R), true);
   auto wit = [&]() {return box_json<S, D>(cat, ce, h, &p, oriented ? &rot.R : nullptr);};
   c.sample(cat, wit);
 
@@ -524,7 +572,10 @@ static void case_tiny_box(vh::Ctx & c, vh::Rng & r, bool oriented)
     got = box.isInside(p);
     t = aabb_truth<S, D>(ce, h, p, all_exact, closest);
   }
-  if (t == V_AMBIG) {c.skip(oriented ? "obb.inside.tiny:ambiguity_band" : "aabb.inside.tiny:ambiguity_band"); return;}
+  if (t == V_AMBIG) {
+    c.skip(std::string(oriented ? "obb.inside." : "aabb.inside.") + (tiny ? "tiny" : "huge") + ":ambiguity_band");
+    return;
+  }
   auto params = [&]() {
       return Params{{"scalar", (double)SN<S>::id}, {"dim", (double)D}, {"expected_inside", t == V_IN ? 1.0 : 0.0},
         {"exact_regime", all_exact ? 1.0 : 0.0}, {"rotation_mode", (double)rot.mode},
@@ -532,10 +583,10 @@ static void case_tiny_box(vh::Ctx & c, vh::Rng & r, bool oriented)
         {"max_half_extent", (double)h.maxCoeff()}, {"max_abs_centre", (double)ce.cwiseAbs().maxCoeff()}};
     };
   auto w2 = [&]() {return J().raw("case", wit()).boolean("library_inside", got).str();};
-  const char * oracle = oriented ? (all_exact ? "obb.inside.tiny.exact" : "obb.inside.tiny.generic") :
-    (all_exact ? "aabb.inside.tiny.exact" : "aabb.inside.tiny.generic");
-  c.expect(oracle, got == (t == V_IN), oriented ? "obb_inside_wrong" : "aabb_inside_wrong", params, w2);
-  if (all_exact && t == V_OUT) {c.count("tiny_exact_outside_checked");}
+  std::string oracle = std::string(oriented ? "obb.inside." : "aabb.inside.") + (tiny ? "tiny." : "huge.") +
+    (all_exact ? "exact" : "generic");
+  c.expect(oracle.c_str(), got == (t == V_IN), oriented ? "obb_inside_wrong" : "aabb_inside_wrong", params, w2);
+  if (all_exact && t == V_OUT) {c.count(tiny ? "tiny_exact_outside_checked" : "huge_exact_outside_checked");}
 }
 
 // ------------------------------------------------------------------------------------------
@@ -550,9 +601,18 @@ static void case_obb_to_aabb(vh::Ctx & c, vh::Rng & r)
   V ce, h;
   Rot<S, D> rot = GenRot<S, D>::go(r, r.coin(0.25));
   c.cat(std::string("rotation_mode_") + std::to_string(rot.mode));
-  if (r.coin(0.3)) {gen_box_dyadic<S, D>(r, (int)r.range(0, 6), ce, h);} else {
-    Geo g = pick_geo(r); gen_box_generic<S, D>(r, g, ce, h);
+  int regime = 0;
+  {
+    int gm = (int)r.range(0, 19);
+    if (gm < 6) {gen_box_dyadic<S, D>(r, (int)r.range(0, 6), ce, h);} else if (gm < 17) {
+      Geo g = pick_geo(r); gen_box_generic<S, D>(r, g, ce, h);
+    } else {
+      regime = gm == 17 ? 1 : (r.coin() ? 1 : 2);
+      gen_box_extreme<S, D>(r, regime, ce, h);
+      c.cat(regime == 1 ? "obb_to_aabb_tiny_lengths" : "obb_to_aabb_huge_lengths");
+    }
   }
+  const LD uflow = 4 * D * (LD)std::numeric_limits<S>::denorm_min();   // absolute error of underflowing products
   c.distinct(hvec(hvec(hvec(vh::hash_addi(0xF1, SN<S>::id * 8 + D), ce), h), rot.R), true);
   auto wit = [&]() {return box_json<S, D>(cat, ce, h, (const V *)nullptr, &rot.R);};
   c.sample(cat, wit);
@@ -578,7 +638,7 @@ static void case_obb_to_aabb(vh::Ctx & c, vh::Rng & r)
     finite = finite && std::isfinite(bc[j]) && std::isfinite(bh[j]);
     LD H = (hi[j] - lo[j]) / 2;
     Hmax = std::max(Hmax, H);
-    LD tol = 16 * epsL<S>() * H + 2 * epsL<S>() * fabsl((LD)ce[j]);
+    LD tol = 16 * epsL<S>() * H + 2 * epsL<S>() * fabsl((LD)ce[j]) + (regime == 1 ? uflow : 0);
     LD up = (LD)bc[j] + (LD)bh[j], dn = (LD)bc[j] - (LD)bh[j];
     LD out = std::max((LD)0, std::max(hi[j] - up, dn - lo[j]));     // a corner sticks out
     LD gap = std::max((LD)0, std::max(up - hi[j], lo[j] - dn));     // a face nobody reaches
@@ -588,7 +648,8 @@ static void case_obb_to_aabb(vh::Ctx & c, vh::Rng & r)
   }
   auto params = [&]() {
       return Params{{"scalar", (double)SN<S>::id}, {"dim", (double)D}, {"rotation_mode", (double)rot.mode},
-        {"coordinate_out", (double)jo}, {"coordinate_gap", (double)jg}, {"largest_half_extent", (double)Hmax}};
+        {"coordinate_out", (double)jo}, {"coordinate_gap", (double)jg}, {"largest_half_extent", (double)Hmax},
+        {"magnitude_regime", (double)regime}};
     };
   auto w2 = [&]() {
       return J().raw("case", wit()).raw("aabb_centre", vh::jvec(bc)).raw("aabb_half", vh::jvec(bh))
@@ -609,7 +670,7 @@ static void case_obb_to_aabb(vh::Ctx & c, vh::Rng & r)
       for (int j = 0; j < D; ++j) {v += (LD)rot.R(i, j) * loc[j];}
       p[i] = (S)v;
       LD H = (hi[i] - lo[i]) / 2;
-      LD band = 8 * epsL<S>() * (fabsl((LD)p[i]) + fabsl((LD)ce[i])) + 16 * epsL<S>() * H;
+      LD band = 8 * epsL<S>() * (fabsl((LD)p[i]) + fabsl((LD)ce[i])) + 16 * epsL<S>() * H + 2 * uflow;
       if (!(H - fabsl((LD)p[i] - (LD)ce[i]) > band)) {clear = false;}
     }
     if (!clear) {c.skip("obb2aabb.point:ambiguity_band"); continue;}
@@ -643,6 +704,13 @@ static void case_interval(vh::Ctx & c, vh::Rng & r)
   using I = romea::core::Interval<S, D>;
   using H = IT<S, D>;
   int m = (int)r.range(2, 5);
+  {
+    // long histories: 2^8+k and 2^16+k intervals included one after the other
+    int lh = (int)r.range(0, 16383);
+    if (lh < 64) {m = 256 + (int)r.range(0, 3); c.cat("interval_history_2p8");} else if (lh == 64) {
+      m = 65536 + (int)r.range(0, 3); c.cat("interval_history_2p16");
+    }
+  }
   bool dy = r.coin(0.5);
   int k = (int)r.range(0, 6);
   Geo g = pick_geo(r);
@@ -652,6 +720,13 @@ static void case_interval(vh::Ctx & c, vh::Rng & r)
     for (size_t j = 0; j < D; ++j) {
       auto draw = [&]() -> S {
           if (!pool[j].empty() && r.coin(0.3)) {return pool[j][r.range(0, pool[j].size() - 1)];}
+          if (r.coin(0.08)) {          // values random reals never produce, and the ends of the floating range
+            using L = std::numeric_limits<S>;
+            static const S SP[] = {(S)0, (S)-0.0, L::denorm_min(), -L::denorm_min(), L::min(), -L::min(), L::max(), -L::max(),
+              L::max() / 2, L::lowest() / 2, (S)1, (S)-1, (S)2, (S)1024, (S)-4096};
+            c.count("interval_special_endpoint");
+            return SP[r.range(0, 14)];
+          }
           return dy ? dyadic<S>(r, k, 1024) : (S)(g.off * r.uni(-1, 1) + g.s * r.uni(-1, 1));
         };
       S a = draw(), b = r.coin(0.15) ? a : draw();
@@ -664,11 +739,12 @@ static void case_interval(vh::Ctx & c, vh::Rng & r)
   c.distinct(hh, true);
   auto wit = [&]() {
       std::string a = "[";
-      for (int i = 0; i < m; ++i) {
+      for (int i = 0; i < std::min(m, 8); ++i) {
         if (i) {a += ",";}
         a += J().arr("lower", los[i].begin(), los[i].begin() + D).arr("upper", ups[i].begin(), ups[i].begin() + D).str();
       }
-      return J().s("cat", cat).s("scalar", SN<S>::name()).f("dim", (int)D).raw("intervals", a + "]").str();
+      return J().s("cat", cat).s("scalar", SN<S>::name()).f("dim", (int)D).f("number_of_intervals", m)
+             .raw("first_intervals", a + "]").str();
     };
   c.sample(cat, wit);
 
@@ -708,8 +784,13 @@ static void case_interval(vh::Ctx & c, vh::Rng & r)
         case 3: v[j] = std::nextafter(tu[j], inf); break;
         case 4: v[j] = std::nextafter(tl[j], inf); break;
         case 5: v[j] = pool[j][r.range(0, pool[j].size() - 1)]; break;
-        case 6: v[j] = (S)((double)tl[j] + ((double)tu[j] - (double)tl[j]) * r.uni()); break;
-        default: v[j] = (S)((double)tl[j] + ((double)tu[j] - (double)tl[j] + g.s) * r.uni(-1, 2)); break;
+        case 6: v[j] = (S)((LD)tl[j] + ((LD)tu[j] - (LD)tl[j]) * (LD)r.uni()); break;
+        default: {
+            LD w = (LD)tl[j] + ((LD)tu[j] - (LD)tl[j] + (LD)g.s) * (LD)r.uni(-1, 2);
+            const LD mx = (LD)std::numeric_limits<S>::max();
+            v[j] = (S)std::max(-mx, std::min(mx, w));
+            break;
+          }
       }
       truth = truth && tl[j] <= v[j] && v[j] <= tu[j];
     }
@@ -730,7 +811,14 @@ static void case_interval(vh::Ctx & c, vh::Rng & r)
 struct SetSpec
 {
   int n, octmode, degen;
+  int regime = 0;      // 0 ordinary magnitudes, 1 tiny (down to the denormals), 2 huge (up to max/4096), 3 integers, 4 +-pairs
   double s, lo;
+  const char * regname() const
+  {
+    static const char * N[] = {"set_ordinary_magnitudes", "set_tiny_magnitudes", "set_huge_magnitudes", "set_integer_coordinates",
+      "set_symmetric_pairs"};
+    return N[regime];
+  }
   const char * octname() const
   {
     static const char * N[] = {"set_all_negative", "set_all_positive", "set_fixed_mixed_octant", "set_straddling_origin",
@@ -746,19 +834,29 @@ static int pick_n(vh::Rng & r)
   if (k < 28) {return (int)r.range(2, 4);}
   if (k < 70) {return (int)r.range(5, 32);}
   if (k < 73) {return 1000;}
+  if (k == 73) {return 255 + (int)r.range(0, 4);}          // around 2^8
   return (int)std::min(1000.0, std::floor(r.logu(33, 1001)));
 }
 
 // n * nc coordinates, row major (point i, component j)
 template<class S>
-static SetSpec gen_set(vh::Rng & r, int nc, std::vector<S> & x, int force_oct = -1)
+static SetSpec gen_set(vh::Rng & r, int nc, std::vector<S> & x, int force_oct = -1, int max_n = 1000)
 {
   SetSpec sp;
-  sp.n = pick_n(r);
+  sp.n = std::min(pick_n(r), max_n);
   int o = (int)r.range(0, 19);
   sp.octmode = o < 6 ? 0 : o < 10 ? 1 : o < 14 ? 2 : o < 17 ? 3 : o < 19 ? 4 : 5;
   if (force_oct >= 0) {sp.octmode = force_oct;}
   sp.s = r.logu(1e-3, 1e4);
+  {
+    using L = std::numeric_limits<S>;
+    int em = (int)r.range(0, 19);
+    // the sum of up to 1000 coordinates and the reciprocal of the largest side stay finite up to max/4096
+    const double lim = (double)L::max() / 4096;
+    if (em == 0) {sp.regime = 1; sp.s = r.logu((double)L::denorm_min() * 8, 1e-3);} else if (em == 1) {
+      sp.regime = 2; sp.s = r.coin(0.2) ? lim : r.logu(1e4, lim);
+    } else if (em == 2) {sp.regime = 3; sp.s = r.logu(1, 1e6);} else if (em == 3) {sp.regime = 4;}
+  }
   static const double LO[] = {0.0, 0.0, 0.5, 0.999, 1 - 1e-6};
   sp.lo = LO[r.range(0, 4)];
   int dg = (int)r.range(0, 19);
@@ -779,7 +877,9 @@ static SetSpec gen_set(vh::Rng & r, int nc, std::vector<S> & x, int force_oct = 
         case 4: v = r.coin(0.3) ? (r.coin() ? 0.0 : -0.0) : -m; break;
         default: v = r.coin(0.3) ? 0.0 : m; break;
       }
+      if (sp.regime == 3) {v = std::copysign(std::floor(std::fabs(v)), v);}
       if (i > 0 && (sp.degen == 1 || (sp.degen == 2 && j == constj))) {v = (double)x[j];}
+      if (sp.regime == 4 && (i & 1)) {v = -(double)x[(size_t)(i - 1) * nc + j];}      // exact opposite of the previous point
       x[(size_t)i * nc + j] = (S)v;
     }
   }
@@ -810,7 +910,17 @@ static SetTruth<S> truth_of(const std::vector<S> & x, int n, int nc, int ncart)
 // n-1 sequential additions and one division in S (unit round-off u = eps/2) are off by at most
 // n * u * sum|x| / n (first order); the tolerance is four times that, 2 * eps * (n+1)/n * sum|x|,
 // so the ratio observed/tolerance stays below ~0.25 by construction
-template<class S> static LD mean_tol(LD sabs, int n) {return 2 * epsL<S>() * (LD)(n + 1) / (LD)n * sabs;}
+// (+ the absolute error of a quotient that lands in the denormals)
+template<class S> static LD mean_tol(LD sabs, int n)
+{
+  return 2 * epsL<S>() * (LD)(n + 1) / (LD)n * sabs + 2 * (LD)std::numeric_limits<S>::denorm_min();
+}
+// the reciprocal of the largest side is a normal number of S only for sides within [4/max, max/4]
+template<class S> static bool side_has_reciprocal(LD side)
+{
+  const LD mx = (LD)std::numeric_limits<S>::max();
+  return side >= 4 / mx && side <= mx / 4;
+}
 
 template<class P> struct PT;
 #define C20_PT(T, NAME, ID, HOMOG) \
@@ -843,6 +953,7 @@ static void case_preconditioner(vh::Ctx & c, vh::Rng & r)
   std::vector<S> x;
   SetSpec sp = gen_set<S>(r, DIM, x);
   c.cat(sp.octname());
+  c.cat(sp.regname());
   if (sp.n == 1) {c.cat("set_single_point");}
   if (sp.n >= 500) {c.cat("set_500_or_more_points");}
   auto fill = [&](romea::core::PointSet<P> & ps, const std::vector<S> & xx, int n) {
@@ -895,7 +1006,8 @@ static void case_preconditioner(vh::Ctx & c, vh::Rng & r)
   auto params = [&]() {
       return Params{{"type", (double)PT<P>::id}, {"n", (double)sp.n}, {"octmode", (double)sp.octmode},
         {"history", history ? 1.0 : 0.0}, {"smallest_true_max", (double)smallest_true_max},
-        {"largest_true_min", (double)largest_true_min}, {"largest_side", (double)t.side}};
+        {"largest_true_min", (double)largest_true_min}, {"largest_side", (double)t.side},
+        {"magnitude_regime", (double)sp.regime}};
     };
   auto w2 = [&]() {
       return J().raw("case", wit()).raw("got_min", vh::jvec(gmin)).raw("got_max", vh::jvec(gmax))
@@ -915,9 +1027,12 @@ static void case_preconditioner(vh::Ctx & c, vh::Rng & r)
   c.expect("pointset.min_is_true_minimum", okmin, "pointset_min_wrong", params, w2);
   c.expect("pointset.max_is_true_maximum", okmax, "pointset_max_wrong", params, w2);
   c.expect_le("pointset.mean_vs_centroid", worst_mean, 1.0L, "pointset_mean_wrong", params, w2);
-  if (t.side > 0) {
+  if (t.side > 0 && side_has_reciprocal<S>(t.side)) {
     c.expect_le("pointset.scale_times_largest_side", fabsl((LD)scale * t.side - 1), 4 * epsL<S>(), "pointset_scale_wrong",
       params, w2);
+  } else if (t.side > 0) {
+    // the reciprocal of a (nearly) denormal side overflows: not a number of S, nothing is demanded
+    c.skip("pointset.scale:reciprocal_not_representable");
   } else {
     // zero-size set: the reciprocal of zero; an infinite scale is accepted, nothing is demanded
     c.skip("pointset.scale:zero_size_set");
@@ -940,6 +1055,7 @@ static void case_container(vh::Ctx & c, vh::Rng & r, const char * tname)
   std::vector<S> x;
   SetSpec sp = gen_set<S>(r, NC, x);
   c.cat(sp.octname());
+  c.cat(sp.regname());
   C pts;
   for (int i = 0; i < sp.n; ++i) {
     A a;
@@ -970,6 +1086,27 @@ static void case_container(vh::Ctx & c, vh::Rng & r, const char * tname)
     gmin = romea::core::min(pts);
     gmax = romea::core::max(pts);
   }
+  if (sp.n <= 8 || r.coin(0.05)) {
+    // the same questions asked again, of a temporary copy and of the container itself, give the same answers, and
+    // the container (taken by const reference) still holds the points it was given
+    bool same = true;
+    A m2 = romea::core::mean(C(pts)), m3 = romea::core::mean(pts);
+    for (int j = 0; j < NC; ++j) {same = same && m2(j) == gmean(j) && m3(j) == gmean(j);}
+    if constexpr (MINMAX) {
+      A a2 = romea::core::min(C(pts)), b2 = romea::core::max(C(pts)), a3 = romea::core::min(pts), b3 = romea::core::max(pts);
+      for (int j = 0; j < NC; ++j) {same = same && a2(j) == gmin(j) && b2(j) == gmax(j) && a3(j) == gmin(j) && b3(j) == gmax(j);}
+    }
+    bool untouched = (int)pts.size() == sp.n;
+    int i = 0;
+    for (const A & a : pts) {
+      for (int j = 0; j < NC && untouched; ++j) {untouched = a(j) == x[(size_t)i * NC + j];}
+      ++i;
+    }
+    c.expect("container.repeatable_and_input_untouched", same && untouched, "result_unstable", [&]() {
+        return Params{{"scalar", (double)SN<S>::id}, {"components", (double)NC}, {"container", (double)CONT}, {"n", (double)sp.n},
+          {"input_untouched", untouched ? 1.0 : 0.0}};
+      }, [&]() {return set_json<S>(cat, tname, sp, x, NC);});
+  }
   auto w2 = [&]() {
       return J().raw("case", wit()).raw("got_min", vh::jvec(gmin)).raw("got_max", vh::jvec(gmax))
              .raw("got_mean", vh::jvec(gmean)).arr("true_min", t.mn, t.mn + NC).arr("true_max", t.mx, t.mx + NC)
@@ -994,6 +1131,414 @@ static void case_container(vh::Ctx & c, vh::Rng & r, const char * tname)
 }
 
 // ------------------------------------------------------------------------------------------
+// J. object semantics of the boxes and intervals: results bound by reference stay what they were,
+// copies / moved-to objects behave as the original and survive its overwriting or destruction,
+// arguments that alias the object's own members are read before anything is written, temporaries
+// give the same answers, sibling objects do not interfere.  Expected values are those of the first
+// observation, itself checked against the definition.
+// ------------------------------------------------------------------------------------------
+template<class S, int D>
+static void case_box_semantics(vh::Ctx & c, vh::Rng & r)
+{
+  using V = Eigen::Matrix<S, D, 1>;
+  using M = Eigen::Matrix<S, D, D>;
+  using OBB = romea::core::OrientedBoundingBox<S, D>;
+  using AABB = romea::core::AxisAlignedBoundingBox<S, D>;
+  using IV = romea::core::Interval<S, D>;
+  const char * cat = "box_object_semantics";
+  c.cat(cat);
+  bool dy = r.coin(0.6);
+  V ce, h, ce2, h2;
+  int k = (int)r.range(0, 6);
+  Rot<S, D> rot = GenRot<S, D>::go(r, dy), rot2 = GenRot<S, D>::go(r, r.coin());
+  if (dy) {gen_box_dyadic<S, D>(r, k, ce, h); gen_box_dyadic<S, D>(r, k, ce2, h2);} else {
+    Geo g = pick_geo(r); gen_box_generic<S, D>(r, g, ce, h); gen_box_generic<S, D>(r, g, ce2, h2);
+  }
+  constexpr int NQ = 4;
+  V Q[NQ];
+  for (int q = 0; q < NQ; ++q) {
+    LD loc[D];
+    for (int j = 0; j < D; ++j) {
+      int m = (int)r.range(0, 5);
+      LD sg = r.sign();
+      loc[j] = m <= 1 ? sg * (LD)h[j] : m == 2 ? 0 : m == 3 ? (LD)h[j] * (LD)r.uni(-1, 1) :
+        sg * ((LD)h[j] * (LD)r.uni(1, 2) + (dy ? (LD)std::ldexp(1.0, -k) : (LD)h[j] + 1e-3L));
+      if (dy && m == 3) {loc[j] = sg * (LD)std::floor(r.uni() * ((double)h[j] * std::ldexp(1.0, k) + 1)) * (LD)std::ldexp(1.0, -k);}
+      if (dy && m >= 4) {loc[j] = sg * ((LD)h[j] + (LD)r.range(1, 40) * (LD)std::ldexp(1.0, -k));}
+    }
+    for (int i = 0; i < D; ++i) {
+      LD v = (LD)ce[i];
+      for (int j = 0; j < D; ++j) {v += (LD)rot.R(i, j) * loc[j];}
+      Q[q][i] = (S)v;
+    }
+  }
+  c.distinct(hvec(hvec(hvec(hvec(vh::hash_addi(0x51, SN<S>::id * 8 + D), ce), h), Q[0]), rot.R), true);
+  auto wit = [&]() {return box_json<S, D>(cat, ce, h, &Q[0], &rot.R);};
+  c.sample(cat, wit);
+  std::string what;      // first thing that went wrong in the group being checked
+  auto params = [&]() {return Params{{"scalar", (double)SN<S>::id}, {"dim", (double)D}, {"dyadic", dy ? 1.0 : 0.0},
+                         {"rotation_mode", (double)rot.mode}};};
+  auto w2 = [&]() {return J().raw("case", wit()).s("what", what).raw("other_centre", vh::jvec(ce2)).raw("other_half", vh::jvec(h2)).str();};
+  auto note = [&](bool ok, const char * msg) {if (!ok && what.empty()) {what = msg;} return ok;};
+  auto eqv = [](const V & a, const V & b) {return (a.array() == b.array()).all();};
+  auto eqm = [](const M & a, const M & b) {return (a.array() == b.array()).all();};
+
+  OBB a(ce, h, rot.R);
+  AABB b(ce, h);
+  // ---- getters, bound as the signature allows
+  const V & rc = a.getCenterPosition();
+  const V & rh = a.getHalfWidthExtents();
+  const M & rR = a.getRotationMatrix();
+  const V & bc = b.getCenterPosition();
+  const V & bh = b.getHalfWidthExtents();
+  what.clear();
+  bool g0 = note(eqv(rc, ce), "obb centre") & note(eqv(rh, h), "obb half extents") & note(eqm(rR, rot.R), "obb rotation") &
+    note(eqv(bc, ce), "aabb centre") & note(eqv(bh, h), "aabb half extents");
+  c.expect("semantics.box.getters_return_what_was_given", g0, "box_getter_wrong", params, w2);
+
+  // ---- first observations (checked against the definition where it is decidable)
+  bool o1[NQ], p1[NQ];
+  for (int q = 0; q < NQ; ++q) {
+    o1[q] = a.isInside(Q[q]); p1[q] = b.isInside(Q[q]);
+    bool ex; LD cl;
+    Verdict to = obb_truth<S, D>(ce, h, rot.R, rot.perm, Q[q], ex, cl);
+    if (to != V_AMBIG) {
+      what = "oriented containment of query " + std::to_string(q);
+      c.expect("semantics.box.first_observation", o1[q] == (to == V_IN), "obb_inside_wrong", params, w2);
+    }
+    Verdict ta = aabb_truth<S, D>(ce, h, Q[q], ex, cl);
+    if (ta != V_AMBIG) {
+      what = "axis-aligned containment of query " + std::to_string(q);
+      c.expect("semantics.box.first_observation", p1[q] == (ta == V_IN), "aabb_inside_wrong", params, w2);
+    }
+  }
+  const IV iv1 = b.toInterval();
+  const AABB e1 = a.toAxisAlignedBoundingBox();
+  const V & ivl = iv1.lower();
+  const V & ivu = iv1.upper();
+  const V & e1c = e1.getCenterPosition();
+  const V & e1h = e1.getHalfWidthExtents();
+  const V ivl0 = ivl, ivu0 = ivu, e1c0 = e1c, e1h0 = e1h;
+  auto same_obb = [&](const OBB & x, const char * who) {
+      bool ok = note(eqv(x.getCenterPosition(), ce), who) & note(eqv(x.getHalfWidthExtents(), h), who) &
+        note(eqm(x.getRotationMatrix(), rot.R), who);
+      for (int q = 0; q < NQ; ++q) {ok = ok & note(x.isInside(Q[q]) == o1[q], who);}
+      AABB e = x.toAxisAlignedBoundingBox();
+      return ok & note(eqv(e.getCenterPosition(), e1c0), who) & note(eqv(e.getHalfWidthExtents(), e1h0), who);
+    };
+  auto same_aabb = [&](const AABB & x, const char * who) {
+      bool ok = note(eqv(x.getCenterPosition(), ce), who) & note(eqv(x.getHalfWidthExtents(), h), who);
+      for (int q = 0; q < NQ; ++q) {ok = ok & note(x.isInside(Q[q]) == p1[q], who);}
+      IV i2 = x.toInterval();
+      return ok & note(eqv(i2.lower(), ivl0), who) & note(eqv(i2.upper(), ivu0), who);
+    };
+
+  // ---- sibling objects of the same classes at work in between
+  OBB s(ce2, h2, rot2.R);
+  AABB sb(ce2, h2);
+  bool so[NQ], sp[NQ];
+  for (int q = 0; q < NQ; ++q) {so[q] = s.isInside(Q[q]); sp[q] = sb.isInside(Q[q]);}
+  const AABB se = s.toAxisAlignedBoundingBox();
+  const IV si = sb.toInterval();
+  {
+    std::unique_ptr<OBB> hs(new OBB(ce2, h, rot.R));
+    std::unique_ptr<AABB> hb(new AABB(si));
+    (void)hs->isInside(ce); (void)hb->isInside(ce2); (void)hs->toAxisAlignedBoundingBox(); (void)hb->toInterval();
+    IV acc = si; acc.include(iv1); (void)acc.inside(ce);
+  }
+  auto same_sibling = [&](const OBB & x, const char * who) {
+      bool ok = note(eqv(x.getCenterPosition(), ce2), who) & note(eqv(x.getHalfWidthExtents(), h2), who) &
+        note(eqm(x.getRotationMatrix(), rot2.R), who);
+      for (int q = 0; q < NQ; ++q) {ok = ok & note(x.isInside(Q[q]) == so[q], who);}
+      return ok;
+    };
+
+  // ---- value semantics
+  what.clear();
+  bool cp = true;
+  {
+    OBB cc(a);                                   cp &= same_obb(cc, "copy-constructed obb");
+    OBB ca(s); ca = a;                           cp &= same_obb(ca, "copy-assigned obb");
+    OBB t1(a); OBB cm(std::move(t1));            cp &= same_obb(cm, "move-constructed obb");
+    OBB t2(a); OBB cma(s); cma = std::move(t2);  cp &= same_obb(cma, "move-assigned obb");
+    OBB & self = cc; cc = self;                  cp &= same_obb(cc, "self-assigned obb");
+    cp &= same_obb(a, "obb after its copies were used");
+    AABB bcc(b);                                 cp &= same_aabb(bcc, "copy-constructed aabb");
+    AABB bca(sb); bca = b;                       cp &= same_aabb(bca, "copy-assigned aabb");
+    AABB t3(b); AABB bcm(std::move(t3));         cp &= same_aabb(bcm, "move-constructed aabb");
+    AABB t4(b); AABB bcma(sb); bcma = std::move(t4); cp &= same_aabb(bcma, "move-assigned aabb");
+    AABB & bself = bcc; bcc = bself;             cp &= same_aabb(bcc, "self-assigned aabb");
+    cp &= same_aabb(b, "aabb after its copies were used");
+    // the source is overwritten / destroyed, the copy lives on
+    OBB src(a); OBB cpy(src); src = s;
+    cp &= same_obb(cpy, "obb copy after its source was overwritten") & same_sibling(src, "overwritten obb source");
+    std::unique_ptr<OBB> hsrc(new OBB(a)); OBB from_heap(*hsrc); hsrc.reset();
+    cp &= same_obb(from_heap, "obb copy after its source was destroyed");
+    std::unique_ptr<AABB> hbsrc(new AABB(b)); AABB b_from_heap(*hbsrc); hbsrc.reset();
+    cp &= same_aabb(b_from_heap, "aabb copy after its source was destroyed");
+    // using and overwriting a copy leaves the source alone
+    OBB cpy2(a); cpy2 = s; (void)cpy2.isInside(Q[0]);
+    cp &= same_obb(a, "obb after a copy of it was overwritten");
+    IV ic(iv1); IV ia(si); ia = iv1; IV it(iv1); IV im(std::move(it)); IV & iself = ic; ic = iself;
+    cp &= note(eqv(ic.lower(), ivl0) && eqv(ic.upper(), ivu0), "copied interval") &
+      note(eqv(ia.lower(), ivl0) && eqv(ia.upper(), ivu0), "copy-assigned interval") &
+      note(eqv(im.lower(), ivl0) && eqv(im.upper(), ivu0), "moved interval");
+    ia.include(si);
+    cp &= note(eqv(iv1.lower(), ivl0) && eqv(iv1.upper(), ivu0), "interval after a copy of it was widened");
+  }
+  c.expect("semantics.box.copies_behave_as_the_original", cp, "copy_differs", params, w2);
+
+  // ---- default-constructed objects are the zero box at the origin (identity rotation) / the whole finite range,
+  //      and take any value by assignment
+  what.clear();
+  bool df = true;
+  {
+    const V zero = V::Zero();
+    AABB d;
+    OBB od;
+    IV di;
+    df &= note(eqv(d.getCenterPosition(), zero) && eqv(d.getHalfWidthExtents(), zero), "default aabb is not the zero box at the origin");
+    df &= note(eqv(od.getCenterPosition(), zero) && eqv(od.getHalfWidthExtents(), zero) && eqm(od.getRotationMatrix(), M::Identity()),
+        "default obb is not the zero box at the origin with the identity rotation");
+    df &= note(d.isInside(zero) && od.isInside(zero), "default box does not contain the origin");
+    for (int q = 0; q < NQ; ++q) {
+      bool at_origin = (Q[q].array() == 0).all();
+      df &= note(d.isInside(Q[q]) == at_origin && od.isInside(Q[q]) == at_origin, "default box contains a point other than the origin");
+    }
+    IV dz = d.toInterval();
+    AABB de = od.toAxisAlignedBoundingBox();
+    df &= note(eqv(dz.lower(), zero) && eqv(dz.upper(), zero) && eqv(de.getCenterPosition(), zero) && eqv(de.getHalfWidthExtents(), zero),
+        "interval / enclosing box of a default box");
+    for (int q = 0; q < NQ; ++q) {df &= note(di.inside(Q[q]) && di.inside(ce), "default interval does not contain a finite value");}
+    di.include(iv1);
+    df &= note(eqv(di.lower(), V::Constant(-std::numeric_limits<S>::max())) && eqv(di.upper(), V::Constant(std::numeric_limits<S>::max())),
+        "default interval changed by including a finite interval");
+    d = b; od = a; di = iv1;
+    df &= same_aabb(d, "default aabb after assignment") & same_obb(od, "default obb after assignment") &
+      note(eqv(di.lower(), ivl0) && eqv(di.upper(), ivu0), "default interval after assignment");
+  }
+  c.expect("semantics.box.default_constructed", df, "default_constructed_wrong", params, w2);
+
+  // ---- arguments aliasing the object's own state; expected from the values at call time
+  what.clear();
+  bool al = true;
+  {
+    OBB x(a);
+    al &= note(x.isInside(x.getCenterPosition()), "obb.isInside(obb.getCenterPosition())");   // |0| <= h, h >= 0
+    bool ex; LD cl;
+    Verdict th = obb_truth<S, D>(ce, h, rot.R, rot.perm, h, ex, cl);
+    if (th != V_AMBIG) {al &= note(x.isInside(x.getHalfWidthExtents()) == (th == V_IN), "obb.isInside(obb.getHalfWidthExtents())");}
+    AABB y(b);
+    al &= note(y.isInside(y.getCenterPosition()), "aabb.isInside(aabb.getCenterPosition())");
+    Verdict tb = aabb_truth<S, D>(ce, h, h, ex, cl);
+    if (tb != V_AMBIG) {al &= note(y.isInside(y.getHalfWidthExtents()) == (tb == V_IN), "aabb.isInside(aabb.getHalfWidthExtents())");}
+    AABB same(h, h);                   // one object for both parameters
+    al &= note(eqv(same.getCenterPosition(), h) && eqv(same.getHalfWidthExtents(), h), "AABB(v, v)");
+    OBB rebuilt(x.getCenterPosition(), x.getHalfWidthExtents(), x.getRotationMatrix());
+    al &= same_obb(rebuilt, "obb built from another's getters");
+    x = OBB(x.getCenterPosition(), x.getHalfWidthExtents(), x.getRotationMatrix());
+    al &= same_obb(x, "obb assigned from a box built from its own getters");
+    y = AABB(y.getCenterPosition(), y.getHalfWidthExtents());
+    al &= same_aabb(y, "aabb assigned from a box built from its own getters");
+    if (dy) {y = AABB(y.toInterval()); al &= same_aabb(y, "aabb rebuilt from its own interval (exact on the grid)");}
+    IV i(iv1);
+    i.include(i);
+    al &= note(eqv(i.lower(), ivl0) && eqv(i.upper(), ivu0), "interval.include(itself)");
+    al &= note(i.inside(i.lower()) && i.inside(i.upper()), "interval.inside(its own lower()/upper())");
+    i.include(IV(i.upper(), i.upper())); i.include(IV(i.lower(), i.lower()));
+    al &= note(eqv(i.lower(), ivl0) && eqv(i.upper(), ivu0), "interval.include(Interval(own upper, own upper))");
+    i = IV(i.lower(), i.upper());
+    al &= note(eqv(i.lower(), ivl0) && eqv(i.upper(), ivu0), "interval = Interval(own lower, own upper)");
+  }
+  c.expect("semantics.box.aliased_arguments", al, "aliasing_wrong", params, w2);
+
+  // ---- temporaries everywhere a reference is taken
+  what.clear();
+  bool tm = true;
+  for (int q = 0; q < NQ; ++q) {
+    tm &= note(a.isInside(V(Q[q])) == o1[q], "obb.isInside(temporary)") & note(b.isInside(V(Q[q])) == p1[q], "aabb.isInside(temporary)");
+    tm &= note(OBB(V(ce), V(h), M(rot.R)).isInside(V(Q[q])) == o1[q], "temporary obb of temporaries") &
+      note(AABB(V(ce), V(h)).isInside(V(Q[q])) == p1[q], "temporary aabb of temporaries");
+  }
+  {
+    IV t5(si); IV acc(iv1); acc.include(std::move(t5));
+    IV acc2(iv1); acc2.include(si);
+    tm &= note(eqv(acc.lower(), acc2.lower()) && eqv(acc.upper(), acc2.upper()), "include(std::move(interval))");
+    AABB viat = AABB(IV(V(ivl0), V(ivu0)));
+    AABB vial(iv1);
+    tm &= note(eqv(viat.getCenterPosition(), vial.getCenterPosition()) && eqv(viat.getHalfWidthExtents(), vial.getHalfWidthExtents()),
+        "AABB(temporary interval of temporaries)");
+    tm &= note(IV(V(ivl0), V(ivu0)).inside(V(ce)) == iv1.inside(ce), "temporary interval.inside(temporary)");
+  }
+  c.expect("semantics.box.temporaries_give_the_same_answers", tm, "value_category_differs", params, w2);
+
+  // ---- at the end: everything bound at the beginning is what it was, results repeat
+  what.clear();
+  bool st = note(eqv(rc, ce) && eqv(rh, h) && eqm(rR, rot.R) && eqv(bc, ce) && eqv(bh, h), "references from the getters") &
+    note(eqv(ivl, ivl0) && eqv(ivu, ivu0), "interval returned by toInterval()") &
+    note(eqv(e1c, e1c0) && eqv(e1h, e1h0), "box returned by toAxisAlignedBoundingBox()") &
+    same_obb(a, "obb at the end") & same_aabb(b, "aabb at the end") & same_sibling(s, "sibling obb at the end");
+  for (int q = 0; q < NQ; ++q) {st &= note(sb.isInside(Q[q]) == sp[q], "sibling aabb at the end");}
+  st &= note(eqv(se.getHalfWidthExtents(), s.toAxisAlignedBoundingBox().getHalfWidthExtents()), "sibling enclosing box");
+  c.expect("semantics.box.results_stable", st, "result_unstable", params, w2);
+}
+
+// ------------------------------------------------------------------------------------------
+// K. the same for the preconditioner, plus long histories of compute() on one object
+// ------------------------------------------------------------------------------------------
+template<class P>
+static bool precond_matches(
+  const romea::core::PointSetPreconditioner<P> & pre, const SetTruth<typename P::Scalar> & t, int n, std::string & why)
+{
+  using S = typename P::Scalar;
+  constexpr int SIZE = romea::core::PointTraits<P>::SIZE;
+  for (int j = 0; j < SIZE; ++j) {
+    if (!((LD)pre.getPointSetMin()(j) == t.mn[j])) {why = "minimum"; return false;}
+    if (!((LD)pre.getPointSetMax()(j) == t.mx[j])) {why = "maximum"; return false;}
+    if (!(fabsl((LD)pre.getPointSetMean()(j) - t.mean[j]) <= mean_tol<S>(t.sabs[j], n))) {why = "mean"; return false;}
+  }
+  if (t.side > 0 && side_has_reciprocal<S>(t.side) && !(fabsl((LD)pre.getScale() * t.side - 1) <= 4 * epsL<S>())) {
+    why = "scale"; return false;
+  }
+  return true;
+}
+
+template<class P>
+static void case_set_semantics(vh::Ctx & c, vh::Rng & r)
+{
+  using S = typename P::Scalar;
+  using Pre = romea::core::PointSetPreconditioner<P>;
+  using PS = romea::core::PointSet<P>;
+  constexpr int DIM = romea::core::PointTraits<P>::DIM, SIZE = romea::core::PointTraits<P>::SIZE;
+  const char * cat = "preconditioner_object_semantics";
+  c.cat(cat);
+  c.cat(std::string("type_") + PT<P>::name());
+  std::vector<S> xa, xb;
+  SetSpec sa = gen_set<S>(r, DIM, xa, -1, 16), sb = gen_set<S>(r, DIM, xb, -1, 16);   // cheap sets: the objects are under test
+  int hist = 0;
+  {
+    int lh = (int)r.range(0, 4095);
+    if (lh < 96) {hist = 256 + (int)r.range(0, 3); c.cat("preconditioner_history_2p8");} else if (lh == 96) {
+      hist = 65536 + (int)r.range(0, 3); c.cat("preconditioner_history_2p16");
+    }
+  }
+  if (hist) {sa.n = std::min(sa.n, 3); sb.n = std::min(sb.n, 3);}
+  auto fill = [&](PS & ps, const std::vector<S> & xx, int n) {
+      ps.clear();
+      for (int i = 0; i < n; ++i) {
+        P p;
+        for (int j = 0; j < SIZE; ++j) {p(j) = j < DIM ? xx[(size_t)i * DIM + j] : (S)1;}
+        ps.push_back(p);
+      }
+    };
+  auto truth = [&](const PS & ps) {
+      std::vector<S> full(ps.size() * SIZE);
+      for (size_t i = 0; i < ps.size(); ++i) {for (int j = 0; j < SIZE; ++j) {full[i * SIZE + j] = ps[i](j);}}
+      return truth_of<S>(full, (int)ps.size(), SIZE, SIZE);
+    };
+  PS A, B;
+  fill(A, xa, sa.n); fill(B, xb, sb.n);
+  SetTruth<S> tA = truth(A), tB = truth(B);
+  uint64_t hh = vh::hash_addi(vh::hash_addi(vh::hash_addi(0x52, PT<P>::id), sa.n), sb.n);
+  for (size_t i = 0; i < std::min<size_t>(xa.size(), 8); ++i) {hh = vh::hash_add(hh, xa[i]);}
+  for (size_t i = 0; i < std::min<size_t>(xb.size(), 8); ++i) {hh = vh::hash_add(hh, xb[i]);}
+  c.distinct(hh, true);
+  auto wit = [&]() {return set_json<S>(cat, PT<P>::name(), sa, xa, DIM);};
+  c.sample(cat, wit);
+  std::string what, why;
+  auto params = [&]() {return Params{{"type", (double)PT<P>::id}, {"n", (double)sa.n}, {"n_other", (double)sb.n},
+                         {"history", (double)hist}, {"magnitude_regime", (double)sa.regime}};};
+  auto w2 = [&]() {
+      return J().raw("case", wit()).s("what", what).s("quantity", why).raw("other_set", set_json<S>(cat, PT<P>::name(), sb, xb, DIM)).str();
+    };
+  auto note = [&](bool ok, const char * msg) {if (!ok && what.empty()) {what = msg;} return ok;};
+  auto eqp = [](const P & a, const P & b) {return (a.array() == b.array()).all();};
+
+  Pre pre(A);
+  const P & rmin = pre.getPointSetMin();
+  const P & rmax = pre.getPointSetMax();
+  const P & rmean = pre.getPointSetMean();
+  const S & rscale = pre.getScale();
+  const auto & rtr = pre.getTranslation();
+  const P min0 = rmin, max0 = rmax, mean0 = rmean;
+  const S scale0 = rscale;
+  const typename Pre::TranslationVector tr0 = rtr;
+  auto sameS = [](S a, S b) {return a == b || (std::isnan(a) && std::isnan(b));};
+  auto sameTr = [&](const typename Pre::TranslationVector & a, const typename Pre::TranslationVector & b) {
+      bool ok = true;
+      for (int j = 0; j < DIM; ++j) {ok = ok && sameS(a(j), b(j));}
+      return ok;
+    };
+  auto same_as_first = [&](const Pre & x, const char * who) {
+      return note(eqp(x.getPointSetMin(), min0) && eqp(x.getPointSetMax(), max0) && eqp(x.getPointSetMean(), mean0) &&
+               sameS(x.getScale(), scale0) && sameTr(x.getTranslation(), tr0), who);
+    };
+  what = "first observation";
+  c.expect("semantics.set.first_observation", precond_matches<P>(pre, tA, sa.n, why), "pointset_extent_wrong", params, w2);
+
+  // sibling objects at work
+  {
+    Pre sib(B); sib.compute(A); sib.compute(B);
+    std::unique_ptr<Pre> hp(new Pre(A)); hp->compute(B);
+  }
+  what.clear(); why.clear();
+  bool cp = true;
+  {
+    Pre other(B);
+    Pre cc(pre);                                     cp &= same_as_first(cc, "copy-constructed");
+    Pre ca(other); ca = pre;                         cp &= same_as_first(ca, "copy-assigned");
+    Pre t1(pre); Pre cm(std::move(t1));              cp &= same_as_first(cm, "move-constructed");
+    Pre t2(pre); Pre cma(other); cma = std::move(t2); cp &= same_as_first(cma, "move-assigned");
+    Pre & self = cc; cc = self;                      cp &= same_as_first(cc, "self-assigned");
+    Pre src(pre); Pre cpy(src); src.compute(B);      // the source moves on to another set
+    cp &= same_as_first(cpy, "copy after its source computed another set");
+    cp &= note(precond_matches<P>(src, tB, sb.n, why), "source recomputed on another set");
+    cpy.compute(B);                                  // the copy is as good as a fresh object
+    cp &= note(precond_matches<P>(cpy, tB, sb.n, why), "copy recomputed on another set");
+    std::unique_ptr<Pre> hsrc(new Pre(pre)); Pre from_heap(*hsrc); hsrc.reset();
+    cp &= same_as_first(from_heap, "copy after its source was destroyed");
+    cp &= same_as_first(pre, "original after its copies were used and recomputed");
+  }
+  c.expect("semantics.set.copies_behave_as_the_original", cp, "copy_differs", params, w2);
+
+  // the object's own results fed back as points (no copy in between); expected from the values
+  what.clear(); why.clear();
+  {
+    Pre x(pre);
+    PS fed;
+    fed.push_back(x.getPointSetMin()); fed.push_back(x.getPointSetMax()); fed.push_back(x.getPointSetMean());
+    fed.push_back(fed[0]);
+    SetTruth<S> tf = truth(fed);
+    x.compute(fed);
+    bool al = note(precond_matches<P>(x, tf, (int)fed.size(), why), "compute() on a set made of the object's own min/max/mean");
+    // temporaries
+    Pre y{PS(A)};
+    al &= same_as_first(y, "constructed from a temporary point set");
+    y.compute(PS(B));
+    al &= note(precond_matches<P>(y, tB, sb.n, why), "compute(temporary point set)");
+    c.expect("semantics.set.aliased_and_temporary_arguments", al, "aliasing_wrong", params, w2);
+  }
+
+  // long history of compute() on one object, alternating the two sets
+  if (hist) {
+    Pre x;
+    for (int i = 0; i < hist; ++i) {x.compute((i & 1) ? B : A);}
+    what = "after a long history of compute()"; why.clear();
+    bool lastB = ((hist - 1) & 1) != 0;
+    c.expect("semantics.set.long_history", precond_matches<P>(x, lastB ? tB : tA, lastB ? sb.n : sa.n, why), "pointset_extent_wrong",
+      params, w2);
+  }
+
+  what.clear(); why.clear();
+  bool st = note(eqp(rmin, min0) && eqp(rmax, max0) && eqp(rmean, mean0) && sameS(rscale, scale0) && sameTr(rtr, tr0),
+      "references from the getters at the end") & same_as_first(pre, "original at the end");
+  bool untouched = (int)A.size() == sa.n;
+  for (int i = 0; i < sa.n && untouched; ++i) {for (int j = 0; j < DIM; ++j) {untouched = untouched && A[i](j) == xa[(size_t)i * DIM + j];}}
+  st &= note(untouched, "the point set handed to compute()");
+  c.expect("semantics.set.results_stable", st, "result_unstable", params, w2);
+}
+
+// ------------------------------------------------------------------------------------------
 // dispatch
 // ------------------------------------------------------------------------------------------
 #define C20_DISPATCH_SD(CALL) \
@@ -1007,12 +1552,29 @@ static void case_container(vh::Ctx & c, vh::Rng & r, const char * tname)
 static void one_case(vh::Ctx & c, uint64_t idx)
 {
   vh::Rng r(c.seed, idx);
-  int k = (int)r.range(0, 21);
+  int k = (int)r.range(0, 24);
   int sd = (int)r.range(0, 3);
   c.cat(sd < 2 ? "scalar_float" : "scalar_double");
-  if (k >= 20) {
+  if (k == 24) {
+    int hom = (int)r.range(0, 1);
+    switch (sd * 2 + hom) {
+      case 0: case_set_semantics<Eigen::Vector2f>(c, r); break;
+      case 1: case_set_semantics<romea::core::HomogeneousCoordinates2f>(c, r); break;
+      case 2: case_set_semantics<Eigen::Vector3f>(c, r); break;
+      case 3: case_set_semantics<romea::core::HomogeneousCoordinates3f>(c, r); break;
+      case 4: case_set_semantics<Eigen::Vector2d>(c, r); break;
+      case 5: case_set_semantics<romea::core::HomogeneousCoordinates2d>(c, r); break;
+      case 6: case_set_semantics<Eigen::Vector3d>(c, r); break;
+      default: case_set_semantics<romea::core::HomogeneousCoordinates3d>(c, r); break;
+    }
+  } else if (k == 23) {
+#define CALL(S, D) case_box_semantics<S, D>(c, r)
+    C20_DISPATCH_SD(CALL)
+#undef CALL
+  } else if (k >= 20) {
     bool oriented = r.coin(0.6);
-#define CALL(S, D) case_tiny_box<S, D>(c, r, oriented)
+    int regime = k == 22 ? 2 : 1;
+#define CALL(S, D) case_tiny_box<S, D>(c, r, oriented, regime)
     C20_DISPATCH_SD(CALL)
 #undef CALL
   } else if (k == 0) {
@@ -1066,19 +1628,23 @@ static void one_case(vh::Ctx & c, uint64_t idx)
   } else {
     int cont = (int)r.range(0, 2);
     bool matrices = r.coin(0.3);
+    bool four = r.coin(0.2);           // four components (the homogeneous 3D layout)
+    if (four) {c.cat("container_four_components");}
+#define C20_DISPATCH_C(CALL) \
+  if (four) {if (sd < 2) {CALL(float, 4);} else {CALL(double, 4);}} else {C20_DISPATCH_SD(CALL)}
     if (!matrices) {
 #define CALL(S, D) \
   do {using A = Eigen::Array<S, D, 1>; const char * tn = "Array<" #S "," #D ",1>"; \
     if (cont == 0) {case_container<A, 0, true>(c, r, tn);} else if (cont == 1) {case_container<A, 1, true>(c, r, tn);} else { \
       case_container<A, 2, true>(c, r, tn);}} while (0)
-      C20_DISPATCH_SD(CALL)
+      C20_DISPATCH_C(CALL)
 #undef CALL
     } else {
 #define CALL(S, D) \
   do {using A = Eigen::Matrix<S, D, 1>; const char * tn = "Matrix<" #S "," #D ",1>"; \
     if (cont == 0) {case_container<A, 0, false>(c, r, tn);} else if (cont == 1) {case_container<A, 1, false>(c, r, tn);} else { \
       case_container<A, 2, false>(c, r, tn);}} while (0)
-      C20_DISPATCH_SD(CALL)
+      C20_DISPATCH_C(CALL)
 #undef CALL
     }
   }
